@@ -150,6 +150,17 @@ def gen_gfa1(rng, nseg=None, with_paths=True, with_containments=True, tags=True,
                 continue
             pos = rng.choice([0, la - lb, (la - lb) // 2])
             ov = rng.choice(['*', '%dM' % lb])
+            if lb >= 3 and rng.random() < 0.4:
+                # an alignment with an insertion or a deletion: reference and query lengths differ
+                x = rng.randint(1, lb - 2)
+                y = rng.randint(1, lb - x - 1)
+                if rng.random() < 0.5:
+                    ov = '%dM%dI%dM' % (x, y, lb - x - y)               # query lb, reference lb - y
+                    pos = rng.choice([0, la - (lb - y), (la - (lb - y)) // 2])
+                elif la - lb >= 1:
+                    d = rng.randint(1, la - lb)
+                    ov = '%dM%dD%dM' % (x, d, lb - x)                    # query lb, reference lb + d
+                    pos = rng.choice([0, la - lb - d])
             f = ['C', a, rng.choice('+-'), b, rng.choice('+-'), str(pos), ov]
             if tags:
                 f += rand_tags(rng, {'MQ': 'i', 'NM': 'i'}, 1, used=['ID'])
